@@ -5,3 +5,4 @@ open Jomini.Props.C03
 #print axioms C03_key_fastpath_sim
 #print axioms C03_iter_sim
 #print axioms C03_fast_eq_reference
+#print axioms C03_delimited
